@@ -655,7 +655,7 @@ def _eval_struct (repo, module, e, env, cls):
       except _Unknown: pass
   return eval_env(repo, module, e, sub, cls)
 
-def paths_under (repo, module, g, env, start, stops, cls=None, limit=200, track=True, on_node=None, track_start=False):
+def paths_under (repo, module, g, env, start, stops, cls=None, limit=200, track=True, on_node=None, track_start=False, exc=False):
   """enumerate paths start -> any node in `stops` following only branches
   consistent with env; simple local assignments update a per-path copy of the
   environment (constant propagation; unknown values drop the binding).
@@ -800,7 +800,14 @@ def paths_under (repo, module, g, env, start, stops, cls=None, limit=200, track=
       except Exception: pass
     fan = sum(1 for m, l in succ if l != 'exc')
     for m, l in succ:
-      if l == 'exc': continue
+      if l == 'exc':
+        # the statement raised: control goes to the handler with the state *before* the statement (only on request, and only
+        # into handlers of this function - an exception that leaves the function ends the path)
+        if not exc or m.kind != 'handler': continue
+        key = (n.id, m.id)
+        if key in used: continue
+        stack.append((m, path + (m,), e, used | {key}, loops))
+        continue
       key = (n.id, m.id)
       if key in used: continue
       # an on_node callback may keep per-path records in the environment: the branches of a fork get environments of their own
